@@ -20,7 +20,7 @@ EXN = {'ValueError', 'KeyError', 'TypeError', 'AttributeError', 'AssertionError'
 
 
 class Case:
-    def __init__(self, name, call, run, result, binders='', hyps=(), tactic=None, note='', alt_call=None):
+    def __init__(self, name, call, run, result, binders='', hyps=(), tactic=None, note='', alt_call=None, raw_stmt=None):
         """name: lemma suffix; call: Gallina text of the model call;
         run: thunk executing the real code on symbolic inputs;
         result: function (emitter, python result) -> Gallina text of the model value;
@@ -28,12 +28,16 @@ class Case:
         hyps: extra hypotheses (Gallina text)"""
         self.name, self.call, self.run, self.result = name, call, run, result
         self.binders, self.hyps, self.tactic, self.note = binders, list(hyps), tactic, note
+        self.raw_stmt = raw_stmt   # a closed statement produced by an observation (no tracing)
         self.alt_call = alt_call   # model call of the 'spec' variant of a known finding (diagnostic file only)
 
 
 def run_case(case):
     ctx = sym.reset()
     out = {'name': case.name, 'status': 'ok'}
+    if case.raw_stmt is not None:
+        out.update({'outcome': case.note, 'pcs': [], 'rhs': '', 'hyps': [], 'call': '', 'alt_call': None, 'wall': 0})
+        return out
     t0 = time.time()
     try:
         with sym.patched():
@@ -107,6 +111,12 @@ def collect_syms(r, acc, depth=0):
 
 def lemma_text(case, out, leaves, diagnostic=False):
     name = 'br_' + case.name
+    if case.raw_stmt is not None and out['status'] == 'ok':
+        tac = case.tactic or 'vm_compute; reflexivity'
+        if diagnostic:
+            return ('Goal %s.\nProof. tryif (solve [%s]) then idtac "BRIDGE-OK %s" else idtac "BRIDGE-FAIL %s". Abort.\n\n'
+                    % (case.raw_stmt, tac, name, name))
+        return 'Lemma %s : %s.\nProof. %s. Qed.\n\n' % (name, case.raw_stmt, tac)
     if out['status'] != 'ok':
         stmt = 'False'
         comment = '(* TRACE ESCAPE / HISTORY DEPENDENCE in %s: %s *)\n' % (case.name, out.get('error', '').replace('*)', '* )'))
@@ -147,25 +157,44 @@ def emit_family(fam, imports, cases, leaves_fn, extra_header=''):
                               'different symbolic leaves (hidden state / cache): ' + (o2.get('error') or strip(o2.get('rhs', ''))[:300]))
     finally:
         objs.ALT[0] = False
-    for diagnostic in (False, True):
-        lines = ['(* GENERATED by tracer/gen.py from the current /repo sources — do not edit *)\n',
-                 'From Coq Require Import ZArith List Bool PrimFloat.\n',
-                 'From PV Require Import Num PyBase BridgeTac %s.\n' % ' '.join(imports),
-                 'Import ListNotations.\n', extra_header, '\nSection Bridges.\nContext (N : NumOps).\n\n']
-        for c, o in zip(cases, outs):
-            lines.append(lemma_text(c, o, leaves, diagnostic))
-            if diagnostic and c.alt_call:
-                import copy as _copy
-                c2 = _copy.copy(c)
-                c2.name = c.name + '__alt'
-                o2 = dict(o)
-                o2['use_call'] = o.get('alt_call')
-                if o2['use_call']:
-                    lines.append(lemma_text(c2, o2, leaves, True))
-        lines.append('End Bridges.\n')
-        text = ''.join(lines)
-        path = os.path.join(COQ_GEN, ('Diag_%s.v' if diagnostic else 'Trace_%s.v') % fam)
-        write_if_changed(path, text)
+    import glob
+    chunk = int(os.environ.get('VERIF_CHUNK', '6'))
+    groups = [list(range(i, min(i + chunk, len(cases)))) for i in range(0, len(cases), chunk)] or [[]]
+    keep = set()
+    for gi, idxs in enumerate(groups):
+        for diagnostic in (False, True):
+            lines = ['(* GENERATED by tracer/gen.py from the current /repo sources — do not edit *)\n',
+                     'From Coq Require Import ZArith List Bool PrimFloat.\n',
+                     'From PV Require Import Num PyBase BridgeTac %s.\n' % ' '.join(imports),
+                     'Import ListNotations.\n', (extra_header if gi == 0 else ''),
+                     '\nSection Bridges.\nContext (N : NumOps).\n\n']
+            for i in idxs:
+                c, o = cases[i], outs[i]
+                lines.append(lemma_text(c, o, leaves, diagnostic))
+                if diagnostic and c.alt_call:
+                    import copy as _copy
+                    c2 = _copy.copy(c)
+                    c2.name = c.name + '__alt'
+                    o2 = dict(o)
+                    o2['use_call'] = o.get('alt_call')
+                    if o2['use_call']:
+                        lines.append(lemma_text(c2, o2, leaves, True))
+            lines.append('End Bridges.\n')
+            text = ''.join(lines)
+            path = os.path.join(COQ_GEN, ('Diag_%s_%02d.v' if diagnostic else 'Trace_%s_%02d.v') % (fam, gi))
+            keep.add(path)
+            write_if_changed(path, text)
+    stale = glob.glob(os.path.join(COQ_GEN, 'Trace_%s_*.v' % fam)) + glob.glob(os.path.join(COQ_GEN, 'Diag_%s_*.v' % fam)) \
+        + glob.glob(os.path.join(COQ_GEN, 'Trace_%s.v' % fam)) + glob.glob(os.path.join(COQ_GEN, 'Diag_%s.v' % fam))
+    for old in stale:
+        if old not in keep:
+            for suffix in ('.v', '.vo', '.vos', '.vok', '.glob'):
+                try:
+                    os.remove(old[:-2] + suffix)
+                except OSError:
+                    pass
+    for i, o in enumerate(outs):
+        o['chunk'] = i // chunk
     report = {'family': fam, 'cases': [{k: v for k, v in o.items() if k not in ('rhs',)} for o in outs]}
     with open(os.path.join(COQ_GEN, 'report_%s.json' % fam), 'w') as f:
         json.dump(report, f, indent=1, default=str)
